@@ -161,6 +161,13 @@ Outcome body(const Case &c) {
     std::string cls; for (char ch : first) { if (isdigit((unsigned char)ch)) { if (cls.empty() || cls.back() != '#') cls += '#'; } else cls += ch; }
     return Outcome::fail(std::string(errors ? "fsck-after-error:" : "fsck:") + cls.substr(0, 70), "e2fsck -fn exit " + str(rc) + "\n" + out);
   }
+  // independent well-formedness (order, entry/block hashes, EA-inode value hashes) judged from the on-disk format, for images that went through the EA-inode or block placement
+  if (const char *ver = getenv("PBT_VERIFY")) {
+    if ((placements_seen >= 1 && (replaced_across || placements_seen >= 2)) || getenv("PBT_VERIFY_ALWAYS")) {
+      std::string cmd = std::string(ver) + " " + img + " 2>&1"; std::string vout; FILE *p = popen(cmd.c_str(), "r");
+      if (p) { char b[512]; while (fgets(b, sizeof b, p)) vout += b; int st = pclose(p);
+        if (st != 0) { std::string first = vout.substr(0, vout.find('\n')); std::string cls; for (char ch : first) { if (isdigit((unsigned char)ch) || (ch >= 'a' && ch <= 'f' && !cls.empty() && cls.back() == '#')) { if (cls.empty() || cls.back() != '#') cls += '#'; } else cls += ch; }
+          return Outcome::fail("format:" + cls.substr(0, 60), "independent xattr verification failed:\n" + vout); } } } }
   Outcome o; o.nontrivial = placements_seen >= 2 || replaced_across; return o;
 }
 rc::Gen<Case> genCase() {
